@@ -14,7 +14,8 @@ import multiprocessing as mp, os, re, shutil, subprocess, tempfile, time, traceb
 import z3
 from vlib import common
 
-PREFIXES = ["", "x :: ", "x := 1 + ", "f :: fn a: ", "f :: fn do\n", "B :: blob { ", "E :: enum ", "use ", "from a use ", "x : ", "if a do ", "f :: fn -> ", "t :: (1, ", "f(", "x . ", "case a do A "]
+PREFIXES = ["", "x :: ", "x := 1 + ", "f :: fn a: ", "f :: fn do\n", "B :: blob { ", "f :: fn do\n    if a do loop b do 1 end ", "f :: fn do\n    loop a do x end ", "f :: fn do\n    if a do x end ", "E :: enum ", "use ", "from a use ", "x : ", "if a do ",
+            "f :: fn -> ", "t :: (1, ", "f(", "x . ", "case a do A ", "f :: fn do\n    do x end ", "f :: fn do\n    case a do A -> x end ", "f :: fn do\n    x := fn do y end "]
 _CTX = {}
 
 
@@ -104,6 +105,7 @@ ODD = [
     "v: Pair(int, str, bool) = Pair { p: 1, q: \"s\" }", "v: Pair(int) = Pair { p: 1, q: \"s\" }", "v: A(int) = A { a: 1 }", "v: En(int, int) = En.X 1",
     "l := []\nl = [l]", "xs := []\nxs -> push2(xs)", "l2 := []\nl2 = [l2]\nz2 :: l2 + 1", "t3 := (1, 2)\nt3 = (t3, 1)", "l4 := []\nl4 = [l4]\npr(l4 == 1)", "g5 := fn x do end\ng5 = fn x do g5(g5) end\nz5 :: g5 + 1", "s := s", "s := fn -> int do ret s() end", "loop do end", "k :: ()", "k :: (,)", "t :: (1,)\npr(t[0])",
     "ff :: fn do end\nff = ff", "q :: if 1 < 2 do end", "case En.X 1 do\n    else end\nend", "w :: [[]]", "z :: -vd()", "u := vd\nu()()", "b := A { a: A { a: 1 } }",
+    "selfplus :: fn x do\n    x == (x, 1)\n    y :: x + x\nend", "selfless :: fn x do\n    x == (x, 1)\n    y :: x < x\nend", "selfneg :: fn x do\n    x == (x, 1)\n    y :: -x\nend", "selfdiv :: fn x do\n    x == (x, 1)\n    y :: x / 2\nend",
     "m := 1\nm.x = 2", "n := (1, 2)\nn[0] = 3", "o := En.X\npr(o)", "r :: fn -> do end", "e :: [fn do end, fn -> int do ret 1 end]",
 ]
 ODD_TEXT = ODD_HEAD + "push2 :: fn l, x do end\nstart :: fn do\n    __alt1(%s)\n    pr(1)\nend\n" % ", ".join("fn do\n%s\nend" % ("\n    " + "\n    ".join(s.split("\n"))) for s in ODD)
@@ -199,6 +201,7 @@ def native_part(art, tier, stats, fnd):
     for name, files in [("missing_import", {"main.sy": "use nothere\nstart :: fn do end\n"}), ("self_import", {"main.sy": "use main\nstart :: fn do end\n"}),
                         ("cyclic_import", {"main.sy": "use a\nstart :: fn do end\n", "a.sy": "use b\nx :: 1\n", "b.sy": "use a\ny :: 2\n"}),
                         ("conflicting_names", {"main.sy": "use a\nuse b as a\nstart :: fn do end\n", "a.sy": "x :: 1\n", "b.sy": "x :: 2\n"}),
+                        ("error_on_a_line_longer_than_65535_columns", {"main.sy": "start :: fn do\n    x := \"" + "a" * 70000 + "\" )\nend\n"}), ("loop_directly_before_end_of_enclosing_block", {"main.sy": "start :: fn do\n    if true do loop false do 1 end end\nend\n"}),
                         ("empty_file", {"main.sy": ""}), ("no_trailing_newline", {"main.sy": "start :: fn do end"}), ("only_comment", {"main.sy": "// nothing"}), ("nul_byte", {"main.sy": "start :: fn do\n\0\nend\n"})]:
         st, dt, out = native_run(art["sylt"], files); n += 1
         if st != "ok": fnd.report("native-%s:%s" % (st, name), "%s: %s %s" % (name, st, out.replace("\n", " ")[-200:]), files)
